@@ -302,6 +302,52 @@ func rulesC18(c *Ctx) {
 		c.Check(nOther == 0, "ResourceUpdated:no-broadcast", ru, nil, "ResourceUpdated never iterates all sessions")
 	})
 
+	c.Rule("R-C18-8", "a listen that ends takes down only its own subscriptions: the deferred cleanup of subscriptionsListen deletes a session's entry from a list-changed map only if that entry still carries this listen's request id (a session may have a list-changed listen and per-URI listens open at the same time)", func() {
+		sl := c.Fn(pM, "Server", "subscriptionsListen")
+		idVar := sl.VarFromCallWhere(func(ce *ast.CallExpr) bool {
+			fn := sl.Callee(ce)
+			return fn != nil && fn.Name() == "Value" && fn.Pkg() != nil && fn.Pkg().Path() == "context"
+		}, 0)
+		// the request id may be bound through a type assertion of ctx.Value(...)
+		if idVar == nil {
+			for _, w := range Writes(sl.Body, false) {
+				if as, ok := w.Stmt.(*ast.AssignStmt); ok && len(as.Rhs) == 1 {
+					if ta, ok := ast.Unparen(as.Rhs[0]).(*ast.TypeAssertExpr); ok {
+						if ce, ok := ast.Unparen(ta.X).(*ast.CallExpr); ok && sl.Callee(ce) != nil && sl.Callee(ce).Name() == "Value" {
+							idVar = sl.ObjOf(as.Lhs[0])
+						}
+					}
+				}
+			}
+		}
+		c.Need(idVar != nil, "subscriptionsListen: the listen's request id")
+		n := 0
+		for _, l := range sl.AllLits() {
+			lg := l.Graph()
+			for _, call := range l.AllCalls(l.Body, false) {
+				if l.BuiltinName(call) != "delete" || len(call.Args) != 2 {
+					continue
+				}
+				fld, isF := l.ObjOf(call.Args[0]).(*types.Var)
+				if !isF || !fld.IsField() || !strings.HasSuffix(fld.Name(), "ChangeSubscriptions") {
+					continue
+				}
+				n++
+				guards := lg.GuardsAt(lg.VertexOf(call))
+				own := hasAtom(guards, func(a Atom) bool {
+					x, y, op, isCmp := cmpOn(a.E, func(e ast.Expr) bool { _, _, isIx := indexOf(e); return isIx })
+					if !isCmp || op != token.EQL || !a.Val {
+						return false
+					}
+					m, _, _ := indexOf(x)
+					return l.ObjOf(m) == types.Object(fld) && l.ObjOf(y) == idVar
+				})
+				c.Check(own, "listen-cleanup-owns:"+fld.Name(), l, call, "delete(%s, session) happens only under %s[session] == <this listen's id> (guards: %s)", fld.Name(), fld.Name(), atomsString(guards))
+			}
+		}
+		c.Pin("list-changed map deletions in the listen cleanup", n, 3)
+	})
+
 	c.Rule("R-C18-4", "subscriptions are acknowledged only once registered, and forgotten when the listen ends (disconnect cleanup: R-C05-5)", func() {
 		sl := c.Fn(pM, "Server", "subscriptionsListen")
 		g := sl.Graph()
